@@ -22,6 +22,8 @@ pub(crate) fn duration_to_instant(duration: Duration) -> Instant {
 #[inline]
 pub(crate) fn now_duration() -> Duration {
   #[cfg(excsn_fibre_verif)]
+  crate::verif_sched::clock();
+  #[cfg(excsn_fibre_verif)]
   if let Some(d) = verif_clock::virtual_now() {
     return d;
   }
